@@ -1,5 +1,4 @@
 package main
 
-func (x *extractor) genTables() string    { return header + "namespace Ntrip.Gen\nend Ntrip.Gen\n" }
 func (x *extractor) genLayouts() string   { return header + "namespace Ntrip.Gen\nend Ntrip.Gen\n" }
 func (x *extractor) genSkeletons() string { return header + "namespace Ntrip.Gen\nend Ntrip.Gen\n" }
